@@ -63,7 +63,7 @@ impl SimCfg {
             _ => rng.random_range(2..=5),
         };
         let (cluster_of, cluster_ids) = if profile == Profile::TwoClusters {
-            const IDS: [(&str, &str); 11] = [
+            const IDS: [(&str, &str); 15] = [
                 ("", "a"),
                 ("a", "A"),
                 ("a", "ab"),
@@ -76,6 +76,10 @@ impl SimCfg {
                 ("0123456789abcdef0123456789abcdef0123456789abcdef0123456789abcdef-x", "0123456789abcdef0123456789abcdef0123456789abcdef0123456789abcdef-y"),
                 ("prod", "prod-eu"),
                 ("prod\u{0}", "prod"),
+                ("prod", "prod\n"),
+                ("blue ", "blue"),
+                ("", " "),
+                (" green", "\tgreen"),
             ];
             let (x, y) = IDS[rng.random_range(0..IDS.len())];
             // every fourth trace: ids of 300 bytes differing in the last one
@@ -221,6 +225,8 @@ pub enum Ctx {
     Eval,
     Beat,
     Start,
+    /// the external catch-up entry point was called for `member` (a copy may be created, unless it was removed)
+    CatchUp { member: usize, was_removed: bool },
     Other,
 }
 
@@ -380,7 +386,7 @@ impl World {
         self.members.push(Member { id: id.clone(), slot, cluster, ledger: BTreeMap::new(), mv: 0, gc: 0, hb: 0, running: true });
         self.by_id.insert(id, midx);
         let s = &mut self.slots[slot];
-        s.watch_rx = Some(cc.live_nodes_watcher());
+        s.watch_rx = if slot % 2 == 0 { Some(cc.live_nodes_watcher()) } else { None };
         s.cc = Some(cc);
         s.member = midx;
         s.up = true;
@@ -685,6 +691,13 @@ impl World {
                             (Some(_), None) => Ok(()),
                         }
                     }
+                    Ctx::CatchUp { member, was_removed } if *member == m => {
+                        if *was_removed {
+                            Err("re-created by an external catch-up call although it had been garbage collected".to_string())
+                        } else {
+                            Ok(())
+                        }
+                    }
                     other => Err(format!("appeared in a {} step", ctx_name(other))),
                 };
                 if let Err(why) = legit {
@@ -740,7 +753,12 @@ impl World {
                         }
                     }
                 }
+                // a SYN of another cluster is rejected before its digest is read: its heartbeats were not observed
+                let foreign_syn = matches!(msg, WMsg::Syn { cluster_id, .. } if cluster_id != &self.cfg.cluster_ids[self.members[me].cluster]);
                 for e in codec::msg_digest(msg) {
+                    if foreign_syn {
+                        break;
+                    }
                     if let Some(&m) = self.by_id.get(&cid(&e.id)) {
                         if m == me || !new.copies.contains_key(&m) {
                             continue;
@@ -921,11 +939,19 @@ impl World {
                 expected.insert(m, c.mv);
             }
         }
-        let rx = self.slots[slot].watch_rx.as_mut().unwrap();
-        let changed = rx.has_changed().unwrap_or(false);
-        let published: BTreeMap<usize, u64> = {
+        // even slots keep a receiver for the whole run (has_changed is observable); odd slots hold none and look at the
+        // channel with a fresh receiver after every evaluation, like a late subscriber would
+        let standing = self.slots[slot].watch_rx.is_some();
+        let fresh_rx = if standing { None } else { Some(cc.live_nodes_watcher()) };
+        let (changed, published): (bool, BTreeMap<usize, u64>) = if let Some(rx) = self.slots[slot].watch_rx.as_mut() {
+            let changed = rx.has_changed().unwrap_or(false);
             let v = rx.borrow_and_update();
-            v.iter().filter_map(|(id, ns)| self.by_id.get(id).map(|m| (*m, ns.max_version()))).collect()
+            (changed, v.iter().filter_map(|(id, ns)| self.by_id.get(id).map(|m| (*m, ns.max_version()))).collect())
+        } else {
+            let rx = fresh_rx.unwrap();
+            let v = rx.borrow();
+            self.stats.inc("watch_values_read_with_a_fresh_receiver");
+            (false, v.iter().filter_map(|(id, ns)| self.by_id.get(id).map(|m| (*m, ns.max_version()))).collect())
         };
         let prev = self.slots[slot].prev_eval_live.clone();
         self.stats.inc("watch_values_checked");
@@ -937,7 +963,7 @@ impl World {
             out.push(f);
         }
         if let Some(prev) = prev {
-            if prev != live_mv && !changed {
+            if standing && prev != live_mv && !changed {
                 out.push(Finding::new(&["C13"], "watch.missed_publication", format!("slot{slot}: live set / max versions changed {prev:?} -> {live_mv:?} between two evaluations but no new value was published")));
             }
             if prev != live_mv {
@@ -1368,11 +1394,13 @@ impl World {
         let memb = matches!(p, Profile::Membership | Profile::Watch | Profile::Mixed) || (p == Profile::TwoClusters && self.cfg.dead_grace < Duration::from_secs(3600));
         let r = self.rng.random_range(0..1000);
         // cumulative weights (per mille) depend on the profile
-        let w: [u32; 16] = if memb {
+        let two = p == Profile::TwoClusters;
+        let w: [u32; 18] = if memb {
             // write syn deliver dup drop cut heal gc eval beat advance crash join/restart tick handshake one-way-syn
-            [120, 100, 190, 40, 40, 25, 25, 40, 60, 20, 110, 25, 35, 100, 40, 30]
+            // catch-up crafted-foreign-syn
+            [120, 100, 185, 40, 40, 25, 25, 40, 60, 20, 110, 25, 35, 95, 40, 30, if two { 0 } else { 10 }, if two { 30 } else { 0 }]
         } else {
-            [220, 170, 225, 50, 50, 15, 15, 70, 20, 10, 80, if self.cfg.crashes { 8 } else { 0 }, if self.cfg.crashes { 12 } else { 5 }, 20, 30, 5]
+            [220, 170, 225, 50, 50, 15, 15, 70, 20, 10, 80, if self.cfg.crashes { 8 } else { 0 }, if self.cfg.crashes { 12 } else { 5 }, 20, 30, 5, 0, if two { 40 } else { 0 }]
         };
         let mut acc = 0;
         let mut kind = 14;
@@ -1460,6 +1488,8 @@ impl World {
                 }
             }
             13 => self.tick(a),
+            16 => self.catch_up_step(a, b),
+            17 => self.crafted_foreign_syn(a, b),
             15 => {
                 // the SYN gets through, the answer is lost: heartbeats flow, data does not
                 if self.slots[b].up && !self.cut.contains(&(a.min(b), a.max(b))) {
@@ -1491,6 +1521,67 @@ impl World {
         }
     }
 
+    /// The application on node `n` fetches the state of some member from node `src` (that node's real copy) and
+    /// feeds it through the external catch-up entry point; all monitors keep running (the supplied state is one a
+    /// real node holds, so ledger-based monitors stay valid).
+    pub fn catch_up_step(&mut self, n: usize, src: usize) {
+        if n == src || !self.slots[n].up || !self.slots[src].up || self.cfg.cluster_of[n] != self.cfg.cluster_of[src] {
+            return;
+        }
+        let cands: Vec<usize> = self.slots[src].snap.copies.keys().cloned().filter(|m| *m != self.slots[n].member).collect();
+        if cands.is_empty() {
+            return;
+        }
+        let m = cands[self.rng.random_range(0..cands.len())];
+        let id = self.members[m].id.clone();
+        let (kvs, mv, gc) = {
+            let Some(ns) = self.slots[src].cc.as_ref().unwrap().node_state(&id) else { return };
+            (ns.key_values_including_deleted().map(|(k, v)| (k.to_string(), v.clone())).collect::<Vec<_>>(), ns.max_version(), ns.last_gc_version())
+        };
+        let was_removed = self.slots[n].removed_hb.contains_key(&m) && !self.slots[n].snap.copies.contains_key(&m);
+        let cc = self.slots[n].cc.as_mut().unwrap();
+        if let Err(p) = catch(|| cc.reset_node_state_if_update(&id, kvs.into_iter(), mv, gc)) {
+            self.fail(&["C18", "C04"], "catchup.panic", format!("slot{n}: catch-up of member{m} from slot{src}'s copy (gc {gc}, mv {mv}) panicked: {p}"));
+            self.aborted = true;
+            return;
+        }
+        self.stats.inc("catch_up_calls");
+        self.note(format!("catch-up slot{n} <- member{m} as held by slot{src} (gc {gc}, mv {mv})"));
+        self.observe(n, Ctx::CatchUp { member: m, was_removed });
+    }
+
+    /// A SYN carrying the OTHER cluster's id whose digest names the receiver itself (with a much higher heartbeat),
+    /// members the receiver knows (higher heartbeats) and a member nobody knows: it must be rejected and nothing may
+    /// be learned from it (C16) — in particular the node's own heartbeat moves by its own activity only.
+    pub fn crafted_foreign_syn(&mut self, to: usize, from_hint: usize) {
+        if !self.slots[to].up {
+            return;
+        }
+        let my_cluster = self.cfg.cluster_of[to];
+        let Some(from) = (0..self.slots.len()).map(|i| (from_hint + i) % self.slots.len()).find(|s| self.cfg.cluster_of[*s] != my_cluster) else { return };
+        let me = self.slots[to].member;
+        let mut digest = vec![];
+        for (m, c) in &self.slots[to].snap.copies {
+            let bump = if *m == me { 100 } else { 50 };
+            digest.push(codec::WDigestEntry { id: wid(&self.members[*m].id), heartbeat: c.hb + bump, last_gc: c.gc, max_version: c.mv + 3 });
+        }
+        let msg = WMsg::Syn { cluster_id: self.cfg.cluster_ids[self.cfg.cluster_of[from]].clone(), digest };
+        let bytes = codec::encode_msg(&msg, &codec::BlockPlan::Raw(1000));
+        let hb0 = self.slots[to].snap.copies.get(&me).map(|c| c.hb).unwrap_or(0);
+        self.note(format!("crafted foreign syn -> slot{to} (claims own heartbeat {})", hb0 + 100));
+        self.stats.inc("crafted_foreign_syns");
+        let reply = self.process(to, from, &bytes);
+        if reply.is_some() {
+            // the answer goes back to the foreign slot like any other datagram
+            self.seq += 1;
+            self.bag.push(Dgram { from: to, to: from, bytes: reply.unwrap(), seq: self.seq, is_dup: false, sent_step: self.step_no });
+        }
+        let hb1 = self.slots[to].snap.copies.get(&me).map(|c| c.hb).unwrap_or(0);
+        if hb1 != hb0 + 1 && hb1 >= hb0 + 100 {
+            self.fail(&["C16", "C05"], "isolation.heartbeat_learned_from_foreign_syn", format!("slot{to}: a rejected foreign SYN claiming heartbeat {} for the node itself moved its heartbeat {hb0} -> {hb1}", hb0 + 100));
+        }
+    }
+
     pub fn replay_doc(&self, engine: &str, trace: u64) -> Value {
         let tail: Vec<&String> = self.log.iter().rev().take(60).collect::<Vec<_>>().into_iter().rev().collect();
         json!({ "engine": engine, "trace_seed": self.seed, "trace_index": trace, "config": self.cfg.to_json(), "steps_executed": self.step_no, "virtual_time_s": self.now_s(), "last_steps": tail })
@@ -1511,6 +1602,7 @@ pub fn ctx_name(c: &Ctx) -> String {
         Ctx::Eval => "eval".into(),
         Ctx::Beat => "beat".into(),
         Ctx::Start => "start".into(),
+        Ctx::CatchUp { member, .. } => format!("catch-up-of-member{member}"),
         Ctx::Other => "other".into(),
     }
 }
